@@ -17,6 +17,7 @@ create_system(new_machine_id=True), InsightsConnection.unregister(), client.hand
 support.registration_check()); only the HTTP session is faked.
 Oracle (independent of the model, on the raw os-level observations): see `Oracle`.
 """
+import errno
 import glob
 import json
 import logging
@@ -42,6 +43,7 @@ EP_REGENS = ["default", "create"]
 CANON_RE = re.compile(r"^[0-9a-f]{8}-[0-9a-f]{4}-4[0-9a-f]{3}-[89ab][0-9a-f]{3}-[0-9a-f]{12}$")
 TIME_RE = re.compile(r"^\d{4}-\d\d-\d\dT\d\d:\d\d:\d\d(\.\d+)?$")
 FINDING = "absent-config-dir"
+FAULT_ERRNOS = ("EPERM", "EACCES", "EROFS", "EBUSY", "EIO")
 
 
 # --------------------------------------------------------------------------- scratch file system
@@ -150,6 +152,8 @@ class Patched(object):
     def __enter__(self):
         self.saved = (constants.machine_id_file, constants.registered_files, constants.unregistered_files,
                       uuid.uuid4, cert_auth.RHSM_CONFIG, cert_auth.rhsmCertificate, logging.root.manager.disable)
+        self.saved_os = (os.remove, os.unlink, os.getuid, os.geteuid)
+        self.fault = None
         uuid.uuid4 = self._uuid4
         cert_auth.rhsmCertificate = FakeCert
         logging.disable(logging.CRITICAL)
@@ -158,6 +162,7 @@ class Patched(object):
     def __exit__(self, *a):
         (constants.machine_id_file, constants.registered_files, constants.unregistered_files,
          uuid.uuid4, cert_auth.RHSM_CONFIG, cert_auth.rhsmCertificate, lvl) = self.saved
+        (os.remove, os.unlink, os.getuid, os.geteuid) = self.saved_os
         logging.disable(lvl)
         FakeCert.current = None
 
@@ -177,6 +182,46 @@ class Patched(object):
         constants.registered_files = [sb.path["reg0"], sb.path["reg1"]]
         constants.unregistered_files = [sb.path["unreg0"], sb.path["unreg1"]]
 
+    # -- fault injection (Env.denied of the model): the unlink that write_to_disk(delete=True) issues for a listed
+    #    location fails with the history's errno (anything but ENOENT) under the history's uid; `raced` locations are
+    #    really removed and THEN report ENOENT (somebody else was faster), which the code must treat as a success
+    def arm_fault(self, sb):
+        init = sb.init
+        den = dict((sb.path[n], n) for n in init.get("denied", []))
+        raced = dict((sb.path[n], n) for n in init.get("raced", []))
+        if not den and not raced:
+            self.fault = None
+            return
+        self.fault = {"den": den, "raced": raced, "errno": getattr(errno, init.get("errno", "EPERM")),
+                      "uid": int(init.get("uid", 0)), "hits": []}
+
+    def _faulty_remove(self, real):
+        def remove(path, *a, **kw):
+            ft = self.fault
+            if ft is not None and isinstance(path, str):
+                caller = sys._getframe(1).f_code.co_name
+                if caller == "write_to_disk" and os.path.lexists(path) and (os.path.islink(path) or not os.path.isdir(path)):
+                    if path in ft["den"]:
+                        ft["hits"].append(ft["den"][path])
+                        raise OSError(ft["errno"], os.strerror(ft["errno"]), path)
+                    if path in ft["raced"]:
+                        real(path, *a, **kw)
+                        raise OSError(errno.ENOENT, os.strerror(errno.ENOENT), path)
+            return real(path, *a, **kw)
+        return remove
+
+    def with_fault(self, fn):
+        if self.fault is None:
+            return fn()
+        real_remove, real_unlink, gu, geu = self.saved_os
+        uid = self.fault["uid"]
+        os.remove, os.unlink = self._faulty_remove(real_remove), self._faulty_remove(real_unlink)
+        os.getuid = os.geteuid = lambda: uid
+        try:
+            return fn()
+        finally:
+            os.remove, os.unlink, os.getuid, os.geteuid = real_remove, real_unlink, gu, geu
+
     def set_inputs(self, rhsm, fresh):
         self.fresh = [uuid.UUID(fresh)]
         FakeCert.current = rhsm
@@ -184,6 +229,9 @@ class Patched(object):
         cert_auth.RHSM_CONFIG = None if (rhsm is None and fresh[0] in "01234567") else object()
 
     def run_op(self, sb, op):
+        return self.with_fault(lambda: self._run_op(sb, op))
+
+    def _run_op(self, sb, op):
         kind = op[0]
         try:
             if kind in ("read", "new"):
@@ -225,6 +273,10 @@ class Patched(object):
 class FakeResponse(object):
     def __init__(self, code, body):
         self.status_code, self.reason, self.text, self.content = code, "faked", body, body.encode("utf-8")
+        self.headers = {}
+
+    def json(self):
+        return json.loads(self.text)
 
 
 class FakeSession(object):
@@ -233,10 +285,28 @@ class FakeSession(object):
     def __init__(self):
         self.calls = []
         self.mode = True
+        self.del_ok = True          # does DELETE /v1/systems/<id> go through
+        self.legacy = "R"           # answer of the legacy API GET /v1/systems/<id>: R | U | N | D:<date>
+        self.variant = 0
         self.headers = {}
 
     def request(self, url=None, method=None, **kw):
         self.calls.append((method, url, kw.get("data")))
+        if method == "DELETE" and not self.del_ok:
+            import requests
+            raise requests.ConnectionError("unreachable (faked)")
+        if method == "GET" and "/v1/systems/" in url:
+            a, v = self.legacy, self.variant
+            if a == "R":
+                return FakeResponse(200, '{"unregistered_at": null, "account_number": "540155"}')
+            if a == "N":
+                return FakeResponse(404, "{}") if v % 2 else FakeResponse(200, '{"account_number": "540155"}')
+            if a.startswith("D:"):
+                return FakeResponse(200, json.dumps({"unregistered_at": a[2:], "account_number": "540155"}))
+            if v % 3 == 0:
+                import requests
+                raise requests.ConnectionError("unreachable (faked)")
+            return FakeResponse(500, "{}") if v % 3 == 1 else FakeResponse(200, "<html>not json</html>")
         if method == "GET" and "host_exists" in url:
             if self.mode is None:
                 import requests
@@ -276,6 +346,9 @@ class PatchedEP(Patched):
         self.cfg.branch_info = {"remote_branch": -1, "remote_leaf": -1}
         self.ic = InsightsClient(self.cfg, from_phase=False)
         self.conn = connection.InsightsConnection(self.cfg)
+        self.conn.test_connection = lambda *a, **k: None          # the diagnosis after a ConnectionError: not part of the state
+        self.ic.connection = self.conn
+        self.last_ret = None
         return self
 
     def fresh_root(self, scratch, n):
@@ -307,6 +380,7 @@ class PatchedEP(Patched):
             method, url, data = self.sess.calls[-1]
             return json.loads(data)["machine_id"]
         if path == "legacyunreg":
+            self.sess.del_ok = True
             self.cfg.legacy_upload = True
             try:
                 self.conn.unregister()
@@ -329,18 +403,68 @@ class PatchedEP(Patched):
             self.conn.unregister()
         elif kind == "handleunreg":
             self.cfg.force = bool(op[1])
-            self.client.handle_unregistration(self.cfg, self.conn)
+            if via(op, 2) == "clientobj":
+                self.ic.unregister()                                # InsightsClient.unregister → client.handle_unregistration
+            else:
+                self.client.handle_unregistration(self.cfg, self.conn)
         elif kind == "regcheck":
             self.set_inputs(op[2], op[3])
             self.sess.mode = op[1]
-            self.support.registration_check(self.conn)
+            self.status_check(via(op, 4))
+        elif kind == "rc412":
+            # the server says "unregistered at <date>": handle_fail_rcs writes the record itself (and swallows every error)
+            body = {"unregistered_at": op[1], "message": "gone"}
+            r = self.conn.handle_fail_rcs(FakeResponse(412, json.dumps(body)))
+            if r is not True:
+                return "ret:" + enc(repr(r))
+        elif kind in ("lregcheck", "lhandlereg", "lhandleunreg"):
+            self.set_inputs(op[-2], op[-1])
+            self.sess.legacy = op[1]
+            self.sess.variant = int(op[-1][-1], 16)
+            self.cfg.legacy_upload = True
+            try:
+                if kind == "lregcheck":
+                    self.status_check(["support", "clientfn", "clientobj"][self.sess.variant % 3])
+                elif kind == "lhandleunreg":
+                    self.cfg.force, self.sess.del_ok = bool(op[2]), bool(op[3])
+                    # InsightsClient.unregister → client.handle_unregistration → _legacy_handle_unregistration
+                    r = self.ic.unregister() if self.sess.variant % 2 else self.client.handle_unregistration(self.cfg, self.conn)
+                    if r not in (True, False, None):
+                        return "ret:" + enc(repr(r))
+                else:
+                    self.cfg.register = bool(op[2])
+                    # InsightsClient.register → client.handle_registration → _legacy_handle_registration
+                    self.last_ret = (self.ic.register() if self.sess.variant % 2 else
+                                     self.client.handle_registration(self.cfg, self.conn))
+                    if self.last_ret not in (True, False, None):
+                        return "ret:" + enc(repr(self.last_ret))
+            finally:
+                self.cfg.legacy_upload = False
+                self.cfg.register = False
+                self.cfg.force = False
+                self.sess.del_ok = True
         else:
             raise AssertionError(kind)
         return "ok"
 
 
+def via(op, i):
+    return op[i] if len(op) > i else "support"
+
+
+def _status_check(self, how):
+    if how == "clientfn":
+        return self.client.get_registration_status(self.cfg, self.conn)
+    if how == "clientobj":
+        return self.ic.get_registration_status()                # InsightsClient.get_registration_status
+    return self.support.registration_check(self.conn)
+
+
+PatchedEP.status_check = _status_check
+
+
 def needs_child(case):
-    return any(op[0] in ("fetch", "connunreg", "handleunreg", "regcheck") or
+    return any(op[0] in ("fetch", "connunreg", "handleunreg", "regcheck", "lregcheck", "lhandlereg", "lhandleunreg", "rc412") or
                (op[0] in ("read", "new") and op[1] != "explicit") for op in case["ops"])
 
 
@@ -436,9 +560,10 @@ class Oracle(object):
         self.armed = False
         self.fails = []     # (clause, text, op index)
 
-    def step(self, i, op, res, pre, post, idb_pre, idb_post):
+    def step(self, i, op, res, pre, post, idb_pre, idb_post, ret=None):
         kind = op[0]
         rid = None
+        legacy_keep = kind in ("lregcheck", "lhandlereg") and op[1] in ("R", "U")
         if res.startswith("id:"):
             rid = dec(res[3:])
             if not CANON_RE.match(rid):
@@ -454,7 +579,8 @@ class Oracle(object):
         # explicit requests for a new identifier: forced regeneration, or an unregistration that deletes the file
         if kind == "new":
             self.established = rid
-        elif kind in ("connunreg", "handleunreg") or (kind == "regcheck" and op[1] is False):
+        elif kind in ("connunreg", "handleunreg") or (kind == "regcheck" and op[1] is False) or \
+                (kind in ("lregcheck", "lhandlereg") and not legacy_keep) or kind == "lhandleunreg":
             self.established = None
         elif kind in ("read", "fetch"):
             if rid is not None:
@@ -466,17 +592,28 @@ class Oracle(object):
                 self.fails.append(("O3", "a read changed the identifier file from %r to %r" % (idb_pre, idb_post), i))
             if idb_pre and pre["id"] != post["id"] and pre["id"][0] == "L":
                 self.fails.append(("O3", "a read replaced the identifier symlink", i))
-        elif kind == "regcheck" and idb_pre and idb_post != idb_pre:
+        elif (kind == "regcheck" or legacy_keep) and idb_pre and idb_post != idb_pre:
             self.fails.append(("O3", "a registration check that was not told 'unregistered' changed the identifier file from %r to %r"
                                % (idb_pre, idb_post), i))
         if kind in ("reg", "unreg") and res == "ok":
             self.armed = True
+        if kind == "lregcheck" and res == "ok" and op[1] != "U":
+            self.armed = True       # a legacy status check that got an answer and returned has resynchronised the markers
+        if kind == "lhandlereg" and ret is True and self.init["has"][0]:
+            # O7: "registered" is reported only with the registration record in place
+            if post["reg0"][0] == "A" or post["unreg0"][0] != "A":
+                self.fails.append(("O7", "the legacy registration returned True (registered) but the markers of the configuration "
+                                   "directory are .registered=%s .unregistered=%s" % (post["reg0"][0], post["unreg0"][0]), i))
         if self.armed:
             for d in ("0", "1"):
                 if post["reg" + d][0] != "A" and post["unreg" + d][0] != "A":
                     self.fails.append(("O4", "both markers present in directory d%s after %s" % (d, kind), i))
         own = pre["id"][1] if pre["id"][0] == "L" else None
-        if kind in MARKER_OPS:
+        if kind == "rc412":
+            for name in ["id"] + ["ext%d" % k for k in range(N_EXT)]:
+                if pre[name] != post[name]:
+                    self.fails.append(("O5", "%s touched %s: %r -> %r" % (kind, name, pre[name], post[name]), i))
+        elif kind in MARKER_OPS:
             for name in ["id"] + ["ext%d" % k for k in range(N_EXT)]:
                 if pre[name] != post[name]:
                     self.fails.append(("O5", "%s touched %s: %r -> %r" % (kind, name, pre[name], post[name]), i))
@@ -500,7 +637,8 @@ class Oracle(object):
             # may fill an empty identifier file through the identifier's own symlink)
             for k in range(N_EXT):
                 name = "ext%d" % k
-                if pre[name] != post[name] and not (kind == "regcheck" and own is not None and own.endswith("/t%d" % k)):
+                if pre[name] != post[name] and not (kind in ("regcheck", "lregcheck", "lhandlereg", "lhandleunreg") and own is not None
+                                                    and own.endswith("/t%d" % k)):
                     self.fails.append(("O5", "%s touched outside target %s" % (kind, name), i))
 
     def is_known(self, clause):
@@ -520,8 +658,12 @@ def init_line(init):
     # what lies under a missing directory does not exist; a time stamp in a marker file is the token <time>
     nodes = [n if init["has"][0 if i < 3 else 1] else ["A"] for i, n in enumerate(init["nodes"])]
     nodes = [["F", "<time>"] if i > 0 and n[0] == "F" and TIME_RE.match(n[1]) else n for i, n in enumerate(nodes)]
-    return "init\t%d\t%d\t%s\t%s" % (init["has"][0], init["has"][1], "\t".join(node(n) for n in nodes),
-                                     "\t".join(node(n) for n in init["ext"]))
+    bad = [n for n in init.get("denied", []) + init.get("raced", []) if n not in LOCS]
+    if bad or init.get("errno", "EPERM") not in FAULT_ERRNOS:
+        raise ValueError("bad fault description in %r" % (init,))
+    return "init\t%d\t%d\t%s\t%s\t%s" % (init["has"][0], init["has"][1], "\t".join(node(n) for n in nodes),
+                                         "\t".join(node(n) for n in init["ext"]),
+                                         ",".join(init.get("denied", [])) or "-")
 
 
 def opt(x):
@@ -536,10 +678,24 @@ def op_line(op):
         return "fetch\t%s\t%s" % (opt(op[1]), enc(op[2]))
     if k == "unreg":
         return "unreg\t%s" % opt(op[1])
+    if k == "rc412":
+        return "rc412\t%s" % opt(op[1])
     if k == "handleunreg":
         return "handleunreg\t%d" % op[1]
     if k == "regcheck":
         return "regcheck\t%s\t%s\t%s" % ("~" if op[1] is None else "%d" % op[1], opt(op[2]), enc(op[3]))
+    if k in ("lregcheck", "lhandlereg", "lhandleunreg"):
+        a = op[1]
+        if not (isinstance(a, str) and (a in ("R", "U", "N") or a.startswith("D:"))):
+            raise ValueError("bad legacy API answer %r" % (a,))
+        api = "D" + enc(a[2:]) if a.startswith("D:") else a
+        if k == "lregcheck":
+            return "lregcheck\t%s\t%s\t%s" % (api, opt(op[2]), enc(op[3]))
+        # fresh2 = what the harness' uuid4 hands out on a second call during the same operation (see Patched._uuid4)
+        f2 = str(uuid.UUID(int=(uuid.UUID(op[-1]).int + 1) % (1 << 128), version=4))
+        if k == "lhandleunreg":
+            return "lhandleunreg\t%s\t%d\t%d\t%s\t%s\t%s" % (api, op[2], op[3], opt(op[4]), enc(op[5]), enc(f2))
+        return "lhandlereg\t%s\t%d\t%s\t%s\t%s" % (api, op[2], opt(op[3]), enc(op[4]), enc(f2))
     return k
 
 
@@ -548,14 +704,16 @@ def run_history(pt, scratch, n, case):
     root = pt.fresh_root(scratch, n)
     sb = Sandbox(root, case["init"])
     pt.point(sb)
+    pt.arm_fault(sb)
     orc = Oracle(case["init"])
     raw = sb.raw()
     out = [sb.canonical(raw)]
     for i, op in enumerate(case["ops"]):
         idb_pre = sb.id_bytes()
+        pt.last_ret = None
         res = pt.run_op(sb, op)
         post = sb.raw()
-        orc.step(i, op, res, raw, post, idb_pre, sb.id_bytes())
+        orc.step(i, op, res, raw, post, idb_pre, sb.id_bytes(), ret=getattr(pt, "last_ret", None))
         out.append(res + "\t" + sb.canonical(post))
         raw = post
     shutil.rmtree(root, ignore_errors=True)
@@ -675,6 +833,48 @@ def gen_init(rng):
     return init, cls
 
 
+def gen_fault(rng, init, p=0.22):
+    """removal faults: some present non-directory locations cannot be unlinked (errno, uid), some vanish under the
+    operation's feet (ENOENT race); biased towards the marker an operation has to CLEAR"""
+    if rng.random() >= p:
+        return init
+    present = [n for n, nd in zip(LOCS, init["nodes"]) if nd[0] in ("F", "L")]
+    pool = present if present and rng.random() < 0.7 else LOCS
+    k = rng.choice([1, 1, 1, 2, 3])
+    den = sorted(set(rng.choice(pool) for _ in range(k)), key=LOCS.index)
+    if rng.random() < 0.15:
+        den = [n for n in LOCS if n != "id"] if rng.random() < 0.5 else LOCS[:]
+    init["denied"] = den
+    init["errno"] = rng.choice(["EPERM", "EPERM", "EACCES", "EACCES", "EROFS", "EBUSY", "EIO"])
+    init["uid"] = rng.choice([0, 1000, 1000, 65534])
+    if rng.random() < 0.3:
+        init["raced"] = sorted(set(rng.choice(LOCS) for _ in range(2)) - set(den), key=LOCS.index)
+    return init
+
+
+def gen_fault_case(rng):
+    """a marker is in place (made by an earlier run, possibly another user), the opposite operation cannot remove it"""
+    has = rng.choice([[True, True], [True, True], [True, False], [False, True]])
+    side = rng.choice(["reg", "unreg"])
+    other = "unreg" if side == "reg" else "reg"
+    nodes = {"id": ["F", fresh_id(rng)] if rng.random() < 0.6 else ["A"]}
+    for d in ("0", "1"):
+        nodes[side + d] = rng.choice([["F", "2019-05-01T10:00:00.000001"], ["F", "old"], ["L", rng.randrange(N_EXT)], ["A"]])
+        nodes[other + d] = ["A"] if rng.random() < 0.8 else gen_marker(rng)
+    init = {"has": has, "nodes": [nodes[n] for n in LOCS], "ext": [gen_ext(rng) for _ in range(N_EXT)]}
+    den = [side + d for d in ("0", "1") if rng.random() < 0.75] or [side + "0"]
+    if rng.random() < 0.2:
+        den.append("id")
+    init["denied"] = sorted(set(den), key=LOCS.index)
+    init["errno"] = rng.choice(["EPERM", "EACCES", "EPERM", "EACCES", "EROFS", "EBUSY", "EIO"])
+    init["uid"] = rng.choice([0, 1000, 65534])
+    first = ["reg"] if side == "unreg" else ["unreg", None if rng.random() < 0.5 else "2020-02-02"]
+    ops = [first] + [gen_op(rng) for _ in range(rng.choice([0, 1, 2, 4]))]
+    if rng.random() < 0.3:
+        ops.insert(0, ["read", "explicit", None, fresh_id(rng)])
+    return "fault:" + side, {"init": init, "ops": ops}
+
+
 def gen_op(rng):
     k = rng.randrange(100)
     if k < 46:
@@ -691,6 +891,44 @@ def gen_op(rng):
     return ["delunreg"]
 
 
+def gen_legacy_op(rng, api=None, rhsm=None):
+    if api is None:
+        api = rng.choice(["R", "R", "U", "U", "N", "D:2019-05-01 10:00:00+00:00", "D:never", "D:"])
+    j = rng.randrange(3)
+    if j == 0:
+        return ["lregcheck", api, rhsm, fresh_id(rng)]
+    if j == 1:
+        return ["lhandlereg", api, rng.randrange(2), rhsm, fresh_id(rng)]
+    return ["lhandleunreg", api, rng.randrange(2), rng.choice([1, 1, 0]), rhsm, fresh_id(rng)]
+
+
+def gen_legacy_case(rng):
+    """the legacy_upload flows (status, --register, --unregister) from the states a legacy host is found in: registered,
+    unregistered, fresh, identifier file empty / legacy spelling / symlink, both markers left behind by a crash"""
+    init, cls = gen_init(rng)
+    init["has"] = rng.choice([[True, True], [True, True], [True, False], [False, False]])
+    k = rng.randrange(10)
+    if k < 5:
+        init["nodes"][0] = ["F", rng.choice([fresh_id(rng), hex32(rng), hex32(rng).upper() + "\n"])]
+    elif k < 6:
+        init["nodes"][0] = ["F", ""]
+    ops = []
+    for _ in range(rng.choice([1, 1, 2, 3, 4])):
+        j = rng.randrange(10)
+        rhsm = None if rng.random() < 0.85 else gen_id_content(rng)[1]
+        if j < 6:
+            ops.append(gen_legacy_op(rng, None, rhsm))
+        elif j < 7:
+            ops.append(["rc412", rng.choice([None, "2020-02-02 00:00:00Z", "never", ""])])
+        elif j < 8:
+            ops.append(rng.choice([["reg"], ["unreg", None], ["delreg"], ["delunreg"]]))
+        else:
+            ops.append(["new", rng.choice(EP_REGENS + ["explicit"]), rhsm, fresh_id(rng)])
+        for rd in rng.sample(EP_READERS, rng.choice([0, 1, 2])):
+            ops.append(["read", rd, None, fresh_id(rng)])
+    return "ep:legacy:" + cls, {"init": gen_fault(rng, init, 0.12), "ops": ops}
+
+
 def gen_ep_case(rng, n_main):
     """interleave every write path with reads through every read path: after each main operation all readers are asked"""
     init, cls = gen_init(rng)
@@ -705,20 +943,26 @@ def gen_ep_case(rng, n_main):
         elif k < 32:
             ops.append(["connunreg"])
         elif k < 44:
-            ops.append(["handleunreg", rng.randrange(2)])
+            ops.append(["handleunreg", rng.randrange(2), rng.choice(["clientfn", "clientobj"])])
+        elif k < 56:
+            ops.append(["regcheck", rng.choice([True, False, False, None]), rhsm, fresh_id(rng),
+                        rng.choice(["support", "clientfn", "clientobj"])])
         elif k < 64:
-            ops.append(["regcheck", rng.choice([True, False, False, None]), rhsm, fresh_id(rng)])
+            api = rng.choice(["R", "R", "U", "U", "N", "D:2019-05-01 10:00:00+00:00", "D:never", "D:"])
+            ops.append(gen_legacy_op(rng, api, rhsm))
         elif k < 72:
             ops.append(["fetch", rhsm, fresh_id(rng)])
         elif k < 80:
             ops.append(["read", "explicit", rhsm, fresh_id(rng)])
-        else:
+        elif k < 96:
             ops.append(rng.choice([["reg"], ["unreg", None], ["delreg"], ["delunreg"]]))
+        else:
+            ops.append(["rc412", rng.choice([None, "2020-02-02 00:00:00Z", "never", ""])])
         readers = EP_READERS[:]
         rng.shuffle(readers)
         for rd in readers[:rng.choice([5, 5, 5, 3, 2])]:
             ops.append(["read", rd, None if rng.random() < 0.9 else gen_id_content(rng)[1], fresh_id(rng)])
-    return "ep:" + cls, {"init": init, "ops": ops}
+    return "ep:" + cls, {"init": gen_fault(rng, init, 0.15), "ops": ops}
 
 
 def fixed_inits():
@@ -759,7 +1003,8 @@ def key_of(case):
 def run(chk):
     rng = chk.rng
     quick = chk.tier == "quick"
-    n_hist = 4000 if quick else 20000
+    n_hist = 3600 if quick else 20000
+    n_fault = 500 if quick else 4000
     max_len = 12 if quick else 60
     n_canon = 4000 if quick else 60000
     chk.rule = ("histories (length <= %d) of read / regenerate / register / unregister / delete-marker operations from "
@@ -786,7 +1031,10 @@ def run(chk):
     for _ in range(n_hist):
         init, cls = gen_init(rng)
         n = rng.choice([1, 2, 3, 4, 6, 8, 10, max_len, max_len]) if quick else rng.randint(1, max_len)
-        cases.append((cls, {"init": init, "ops": [gen_op(rng) for _ in range(n)]}, None))
+        cases.append((cls, {"init": gen_fault(rng, init), "ops": [gen_op(rng) for _ in range(n)]}, None))
+    for _ in range(n_fault):
+        cls, case = gen_fault_case(rng)
+        cases.append((cls, case, None))
     # canonicalisation stream: the subscription identity goes through uuid.UUID(..., version=4) without touching a file
     absent = {"has": [False, False], "nodes": [["A"]] * 5, "ext": [["A"]] * N_EXT}
     for _ in range(n_canon):
@@ -794,10 +1042,13 @@ def run(chk):
         s = gen_odd(rng) if j < 4 else gen_unicode_odd(rng) if j < 5 else gen_id_content(rng)[1]
         cases.append(("canon", {"init": absent, "ops": [["new", "explicit", s, fresh_id(rng)]]}, None))
 
-    n_ep = 450 if quick else 3000
+    n_ep = 400 if quick else 3000
     ep_cases = []
     for _ in range(n_ep):
         cls, case = gen_ep_case(rng, rng.choice([1, 2, 3, 4, 6, 8]) if quick else rng.randint(1, 20))
+        ep_cases.append((cls, case, None))
+    for _ in range(200 if quick else 2000):
+        cls, case = gen_legacy_case(rng)
         ep_cases.append((cls, case, None))
 
     lines, spans, impl = [], [], []
@@ -815,6 +1066,9 @@ def run(chk):
         seen.add(key)
         chk.count("init:" + cls.split(":")[0] if cls.startswith("corpus") else "init:" + cls)
         chk.count("dirs:%d%d" % tuple(case["init"]["has"]))
+        if case["init"].get("denied") or case["init"].get("raced"):
+            chk.count("fault:%s:uid%s" % (case["init"].get("errno", "EPERM"), "0" if not case["init"].get("uid") else "N"))
+            chk.count("fault:denied=%d,raced=%d" % (len(case["init"].get("denied", [])), len(case["init"].get("raced", []))))
         chk.count("len:%d" % len(case["ops"]) if len(case["ops"]) <= 12 else "len:>12")
         for op, o in zip(case["ops"], out[1:]):
             tag = "%s(%s)" % (op[0], op[1]) if op[0] in ("read", "new") else op[0]
